@@ -234,6 +234,12 @@ func (m *Macaroon) Add(caveats ...Caveat) error {
 			c3p := *c3p
 			caveat = &c3p
 
+			// a decoded token can carry a tail of any length; seal panics on a
+			// key that isn't EncryptionKeySize bytes
+			if len(m.Tail) != EncryptionKeySize {
+				return fmt.Errorf("m.add: bad tail size: have %d, need %d", len(m.Tail), EncryptionKeySize)
+			}
+
 			// encrypt RN under the tail hmac so we can recover it during verification
 			c3p.VerifierKey = seal(EncryptionKey(m.Tail), c3p.rn)
 
